@@ -693,33 +693,50 @@ Proof.
     + destruct (truthy_s (an_name node) || truthy_l (an_attrs node)).
       * replace 0 with (0 + 0) by reflexivity. eapply Emits_trans; [apply Emits_push_raw|apply Emits_push_plain, Hp].
       * apply Emits_push_plain, Hp.
-    + assert (G : forall lines st0, Forall (fun l => plain_tokens l = true) lines ->
-                Emits st0 (fold_left (fun st line =>
-                       let st := map_out (fun os => os_push_newline (oc_fmt c) os (Some None)) st in
-                       let st := match io_before_text o with [] => st | b => push_raw b st end in
-                       let st := push_tokens c line st in
-                       match io_after_text o with
-                       | [] => st
-                       | a => push_raw a (push_raw (repeat_str [c_space]
-                                (fold_left Nat.max (map value_length (l0 :: l1 :: ls)) O - value_length line)) st)
-                       end) lines st0) 0).
-      { induction lines as [|ln lines IH]; intros st0 Hl'; cbn [fold_left]; [apply Emits_refl|].
-        inversion Hl' as [|x y Hx Hy]; subst. replace 0 with (0 + 0) by reflexivity. eapply Emits_trans; [|apply IH, Hy].
-        cbv zeta.
-        assert (E1 : Emits st0 (push_tokens c ln (match io_before_text o with
-                                               | [] => map_out (fun os => os_push_newline (oc_fmt c) os (Some None)) st0
-                                               | b => push_raw b (map_out (fun os => os_push_newline (oc_fmt c) os (Some None)) st0)
-                                               end)) 0).
-        { destruct (io_before_text o).
-          - replace 0 with (0 + 0) by reflexivity. eapply Emits_trans; [apply Emits_newline|]. apply Emits_push_plain, Hx.
-          - replace 0 with (0 + (0 + 0)) by reflexivity.
-            eapply Emits_trans; [apply Emits_newline|]. eapply Emits_trans; [apply Emits_push_raw|apply Emits_push_plain, Hx]. }
-        destruct (io_after_text o); [exact E1|].
-        replace 0 with (0 + (0 + 0)) by reflexivity. eapply Emits_trans; [exact E1|].
-        eapply Emits_trans; apply Emits_push_raw. }
+    + set (w := fold_left Nat.max (map value_length (l0 :: l1 :: ls)) O).
+      assert (G : forall lines st0 nf, Forall (fun l => plain_tokens l = true) lines ->
+                nf = fs_field st0 ->
+                Emits st0 (fst (fold_left (pv_line c o w (fs_field st0)) lines (st0, nf))) 0 /\
+                snd (fold_left (pv_line c o w (fs_field st0)) lines (st0, nf)) = fs_field st0).
+      { induction lines as [|ln lines IH]; intros st0 nf Hl' Hnf; cbn [fold_left]; [split; [apply Emits_refl|exact Hnf]|].
+        inversion Hl' as [|x y Hx Hy]; subst.
+        set (stb := match io_before_text o with
+                    | [] => map_out (fun os => os_push_newline (oc_fmt c) os (Some None)) st0
+                    | b => push_raw b (map_out (fun os => os_push_newline (oc_fmt c) os (Some None)) st0)
+                    end).
+        assert (Eb : Emits st0 stb 0).
+        { unfold stb. destruct (io_before_text o); [apply Emits_newline|].
+          replace 0 with (0 + 0) by reflexivity. eapply Emits_trans; [apply Emits_newline|apply Emits_push_raw]. }
+        assert (Fb : fs_field stb = fs_field st0) by (destruct Eb as [_ Eb]; rewrite Eb; cbn; lia).
+        assert (Em : mkFs (fs_out stb) (fs_field st0) = stb) by (rewrite <- Fb; destruct stb; reflexivity).
+        set (stt := push_tokens c ln stb).
+        assert (Et : Emits st0 stt 0).
+        { replace 0 with (0 + 0) by reflexivity. eapply Emits_trans; [exact Eb|apply Emits_push_plain, Hx]. }
+        set (sta := match io_after_text o with
+                    | [] => stt
+                    | a => push_raw a (push_raw (repeat_str [c_space] (w - value_length ln)) stt)
+                    end).
+        assert (Ea : Emits st0 sta 0).
+        { unfold sta. destruct (io_after_text o); [exact Et|].
+          replace 0 with (0 + (0 + 0)) by reflexivity. eapply Emits_trans; [exact Et|].
+          eapply Emits_trans; apply Emits_push_raw. }
+        assert (Ft : fs_field stt = fs_field st0) by (destruct Et as [_ Et]; rewrite Et; cbn; lia).
+        assert (Fa : fs_field sta = fs_field st0) by (destruct Ea as [_ Ea]; rewrite Ea; cbn; lia).
+        assert (Ep : pv_line c o w (fs_field st0) (st0, fs_field st0) ln = (sta, fs_field st0)).
+        { unfold pv_line. cbv zeta. fold stb. rewrite Em. fold stt. rewrite Ft, N.max_id. reflexivity. }
+        rewrite Ep. rewrite <- Fa. destruct (IH sta (fs_field sta) Hy eq_refl) as [I1 I2]. split.
+        - replace 0 with (0 + 0) by reflexivity. eapply Emits_trans; [exact Ea|exact I1].
+        - exact I2. }
       pose proof (Emits_level 1 st) as E1.
-      pose proof (G (l0 :: l1 :: ls) (map_out (fun os => os_add_level os 1) st) Hl) as E2.
-      match type of E2 with Emits _ ?mid _ => pose proof (Emits_level (-1) mid) as E3 end.
+      set (st1 := map_out (fun os => os_add_level os 1) st) in *.
+      change (fs_field st1) with (fs_field st1) in G.
+      destruct (G (l0 :: l1 :: ls) st1 (fs_field st1) Hl eq_refl) as [E2 E2'].
+      destruct (fold_left (pv_line c o w (fs_field st1)) (l0 :: l1 :: ls) (st1, fs_field st1)) as [stf nff].
+      cbn [fst snd] in E2, E2'. subst nff.
+      assert (Ef : mkFs (fs_out stf) (fs_field st1) = stf).
+      { destruct E2 as [_ E2]. destruct stf as [so sf]. cbn [fs_out fs_field] in *. f_equal. rewrite E2. cbn. lia. }
+      rewrite Ef.
+      pose proof (Emits_level (-1) stf) as E3.
       exact (Emits_trans _ _ _ _ _ E1 (Emits_trans _ _ _ _ _ E2 E3)).
   - (* None *)
     destruct (an_children node) as [|c0 ch]; cbn [negb andb]; [|apply Emits_refl].
